@@ -14,6 +14,20 @@ ONE long-lived client and again on a fresh client per call (the two must hand ba
 returned with std crypto over the independent encoding of the chain THAT call submitted, and runs the entry decoder on
 the spec's classes and on seeded mutations.
 
+The CONSTRUCTION of the client is part of the specification (variable client, Constructs, ConstructionLaw): the two key
+options of jsonclient.Options are slots [key, form]; the form is the key-material dimension (the standard
+SubjectPublicKeyInfo; the log's key readable but not in the prescribed form - RSA under id-RSAES-OAEP / id-RSASSA-PSS /
+without NULL / obsolete or private OID, compressed EC point, RSA 1024 / P-384, trailing bytes, other PEM label, certificate,
+PKCS#1, text around the block, bare base64; no usable key - Ed25519, DSA, X25519, arbitrary / truncated / empty DER, no PEM
+block, empty block, private key; absent), alone or next to the standard key in the other option.  Law: a key was configured
+=> the construction fails \/ everything the client ever returns verifies under that key.  TLC checks it over every option
+(LogClientKeys.cfg) and exports one construction case per option (KCASE) and, for every option, one call per signed
+endpoint and probe class; harness/c12/material.go renders every form with the standard library, gives it to client.New
+and holds a client that IS built to the specification's verdicts.  The submitted precertificate chains have a SHAPE
+(AllShapes: who signed x position of the poison x last extension x notAfter form; the dimensions of
+spec/codec/EntryOfChain.tla / harness/pki Opts.ExtOrder): every shape is submitted through add-pre-chain against the probe
+classes, the expected entry coming from harness/ref (checked against the specification's description of the shape).
+
 spec/client/TemporalClient.tla (+ MCTemporalClient): the temporal (sharded) log client of client/multilog.go - 1..3
 contiguous shards, each with its own key, window and adversarial server.  TLC checks RoutedToOneShard, OnlyVerifiedSCT
 (per routed shard), RootsUnion (every completion order, context ending at any point, liveness RootsTerminate),
@@ -56,6 +70,18 @@ ASSUME = [
     "another chain / method, or under the well-formed fields of the other kind; sequences of three calls, each replayed on one "
     "long-lived client and on a fresh client per call; NAMED CLAUSE NoCreditForHistory: a replayed answer gets the verdict it "
     "would get from a client that never saw anything",
+    "key material: 81 key options (KeyOptionTable) - every non-standard form in PublicKeyDER or in PublicKey, alone and next to "
+    "the log's standard key in the other option; NAMED CLAUSE LenientMaterial: where the log's key can be read out of the bytes "
+    "but not in the form RFC 6962 2.1.4 / RFC 5280 prescribe, the construction may fail or succeed, a client that is built "
+    "verifies with that key and may refuse what verifies (its log ID may be the hash of the prescribed SubjectPublicKeyInfo or "
+    "of the bytes given); NAMED CLAUSE OnlyKeyItHas: documented option unusable, other option standard - a client that is built "
+    "all the same verifies with the other option's key; material without any RFC 6962 key: the construction fails, or the client "
+    "returns no signed object at all; no key configured: not judged.  Clients built from non-standard material are probed with "
+    "one 200 answer per signed endpoint and probe class (15 classes), not with sequences",
+    "chain shapes: 48 precertificate chains (signed directly / by a precertificate signing certificate: plain, with a "
+    "keyid+issuer+serial AKI, with the CT usage second) x (poison last / before the AKI / first) x (last extension SAN / AKI) x "
+    "(notAfter 2049 UTCTime / 2050 GeneralizedTime), each against the probe classes under the option der; a precertificate "
+    "without AKI, a precertificate signing certificate without AKI and other subject key types are C04's (EntryOfChain.tla)",
     "SHA-256 / ECDSA P-256 / RSA PKCS#1 v1.5 soundness (signatures are tokens in the spec; the harness uses real keys: "
     "one ECDSA P-256 and one RSA 2048 log key, a foreign key of each type)",
     "server behaviours are drawn from the body-class catalogue of LogClient.tla (single deviations from the valid answer, "
@@ -92,6 +118,7 @@ def spread_key_options(ctx, seqs):
         opt = KEY_OPTIONS[(i + ctx.seed) % len(KEY_OPTIONS)]
         for step in beh:
             step["config"] = opt
+            step.pop("opt", None)    # (the description of the option the sequence was exported under)
             step["rotated"] = True   # keeps the fingerprints of sequences independent of the seed
     return seqs
 
@@ -167,6 +194,10 @@ def run(ctx, replay=None):
         elif "behaviour" in data:
             path = ctx.write_ndjson("replay.ndjson", [data["behaviour"]])
             ctx.go_test("c12", run="TestReplay$", env=dict(env, VERIF_BEHAVIOURS=path))
+        elif "kcase" in data:
+            path = ctx.write_ndjson("replay.ndjson", [])
+            kpath = ctx.write_ndjson("kcases.ndjson", [data["kcase"]])
+            ctx.go_test("c12", run="TestReplay$", env=dict(env, VERIF_BEHAVIOURS=path, VERIF_KCASES=kpath))
         elif "leaf_input" in data:
             path = ctx.write_ndjson("entry-replay.ndjson", [data])
             ctx.go_test("c12", run="TestEntryReplay$", env=dict(env, VERIF_ENTRY_REPLAY=path))
@@ -183,12 +214,23 @@ def run(ctx, replay=None):
         ctx.tlc("client", "MCLogClient", ctx.pick("LogClientSmall.cfg", "LogClient.cfg"), workers=min(8, os.cpu_count() or 4))
         if ctx.thorough():
             ctx.tlc("client", "MCLogClient", "LogClientReplay.cfg", workers=min(8, os.cpu_count() or 4))
+        # 1b. the key-material dimension (ConstructionLaw and the verification invariants): quick - one key option of every
+        #     class (the verdicts depend on the option through its class only) x every endpoint x every class, all 81
+        #     options over the probe classes in step 2; thorough - all options, and one of every class over two calls
+        ctx.tlc("client", "MCLogClient", ctx.pick("LogClientKeys.cfg", "LogClientKeysFull.cfg"), workers=min(8, os.cpu_count() or 4))
+        if ctx.thorough():
+            ctx.tlc("client", "MCLogClient", "LogClientKeysPairs.cfg", workers=min(8, os.cpu_count() or 4))
     # 2. every completed single call as a case, the entry-decoder table
     r = ctx.tlc("client", "MCLogClient", ctx.pick("LogClientCases.cfg", "LogClientCasesFull.cfg"), workers=1, count=False)
     cases = dedup(r.records.get("CASE", []))
     ecases = r.records.get("ECASE", [])
-    if not cases or not ecases:
+    kcases = r.records.get("KCASE", [])
+    if not cases or not ecases or not kcases:
         raise Infra("case export produced nothing")
+    material = [c for c in cases if c[0]["config"] not in KEY_OPTIONS]
+    shapes = [c for c in cases if (c[0].get("shape") or {}).get("k") == "shape"]
+    if not material or not shapes:
+        raise Infra("case export produced no key-material / chain-shape case")
     # 3. sequences of two calls: representative first call x every second call
     r = ctx.tlc("client", "MCLogClient", ctx.pick("LogClientSeqSmall.cfg", "LogClientSeq.cfg"), workers=1, count=False)
     seqs = dedup(r.records.get("BEH", []))
@@ -215,9 +257,13 @@ def run(ctx, replay=None):
     nrep = sum(1 for b in hseqs if any((a.get("src") or {}).get("method") for s in b for a in s["answers"]))
     ctx.log("cases: %d single calls, %d two-call sequences, %d history sequences (%d with a replayed answer), %d entry classes"
             % (len(cases), len(seqs), len(hseqs), nrep, len(ecases)))
-    ctx.exhaustive = {"single_calls": len(cases), "entry_classes": len(ecases), "history_sequences": len(hseqs)}
+    ctx.log("key material: %d key options, %d calls on clients built from non-standard material; %d calls with %d precertificate chain shapes"
+            % (len(kcases), len(material), len(shapes), len({c[0]["chain"] for c in shapes})))
+    ctx.exhaustive = {"single_calls": len(cases), "entry_classes": len(ecases), "history_sequences": len(hseqs),
+                      "key_options": len(kcases), "key_material_calls": len(material), "chain_shape_calls": len(shapes)}
     path = ctx.write_ndjson("behaviours.ndjson", cases + spread_key_options(ctx, seqs) + spread_key_options(ctx, hseqs))
-    ctx.go_test("c12", run="TestReplay$", env={"VERIF_BEHAVIOURS": path}, timeout=1200)
+    kpath = ctx.write_ndjson("kcases.ndjson", kcases)
+    ctx.go_test("c12", run="TestReplay$", env={"VERIF_BEHAVIOURS": path, "VERIF_KCASES": kpath}, timeout=1200)
     epath = ctx.write_ndjson("ecases.ndjson", ecases)
     ctx.go_test("c12", run="TestEntryDecoder$", env={"VERIF_ECASES": epath, "VERIF_MUTATIONS": ctx.pick(20000, 400000)},
                 timeout=1200, name="c12entries")
